@@ -102,20 +102,20 @@ theorem bytesAt_drop (g : Frame) (a o n : Nat) : bytesAt (g.drop a) o n = bytesA
   simp only [bytesAt, List.drop_drop]
 
 /-- **What the reply says, in terms of what Go encoded.**  For cache bytes `encAssignment A` / `encPool P` /
-    `encCfg mac S idx` with a configured server address, at most two non-zero DNS servers and a prefix length of at
+    a server_config whose `server_ip` field reads `S ≠ 0`, at most two non-zero DNS servers and a prefix length of at
     most 32, the fields of the transmitted BOOTP message are those of the userspace reply (`slowView`) with every
     IPv4 ADDRESS byte-reversed (`View.rev`, finding D10); message type, lease time and subnet mask are exact. -/
 theorem reply_view {f : Frame} {p : Pkt} (wf : p.WF f) (hroom : p.dhcpOff + 240 + 64 ≤ f.length) (t : UInt8)
-    (A : Assignment) (P : PoolCfg) (mac : Bytes) (S idx : UInt32)
+    (A : Assignment) (P : PoolCfg) (cfg : Bytes) (S : UInt32) (hcfg : rd32 cfg 8 = S)
     (hS : S ≠ 0) (hdns : P.dns.length ≤ 2) (hnz : ∀ d ∈ P.dns, d ≠ 0) (hpl : P.prefixLen.toNat ≤ 32) :
-    viewOf ((replyP f p t (encAssignment A) (encPool P) (encCfg mac S idx)).drop p.dhcpOff)
+    viewOf ((replyP f p t (encAssignment A) (encPool P) cfg).drop p.dhcpOff)
       = (slowView (replyTypeOf t) A.ip S P).rev := by
-  have hsip : serverIpOf (encCfg mac S idx) (encPool P) = S := by
+  have hsip : serverIpOf cfg (encPool P) = S := by
     unfold serverIpOf
-    rw [rd32_encCfg_ip]
+    rw [hcfg]
     simp [hS]
-  have hopts := reply_opts wf hroom t (encAssignment A) (encPool P) (encCfg mac S idx)
-  have hyi := reply_yiaddr wf hroom t (encAssignment A) (encPool P) (encCfg mac S idx)
+  have hopts := reply_opts wf hroom t (encAssignment A) (encPool P) cfg
+  have hyi := reply_yiaddr wf hroom t (encAssignment A) (encPool P) cfg
   rw [rd32_encAssignment_ip] at hyi
   unfold replyOpts at hopts
   rw [hsip] at hopts
